@@ -363,33 +363,77 @@ example : eval (algTab : FunTab ℚ) defaultEnv (.add (.heav1 (.num 0)) (.heav2 
 
 /-! ### soundness of the symbolic derivative (over the reals) -/
 
-/-- function table over the reals -/
-noncomputable def realTab : FunTab ℝ where
-  heav := heaviside
-  cmp := cmpVal
-  f0 := fun c => if c = "pi" then Real.pi else if c = "E" then Real.exp 1 else 0
-  f1 := fun f x =>
-    if f = "sin" then Real.sin x else if f = "cos" then Real.cos x
-    else if f = "exp" then Real.exp x else if f = "log" then Real.log x
-    else if f = "sqrt" then Real.sqrt x else if f = "tanh" then Real.tanh x
-    else if f = "tan" then Real.tan x else if f = "sinh" then Real.sinh x
-    else if f = "cosh" then Real.cosh x else if f = "atan" then Real.arctan x
-    else (algTab : FunTab ℝ).f1 f x
-  f2 := fun f x y =>
-    if f = "pow" then x ^ y else if f = "hypot" then Real.sqrt (x ^ 2 + y ^ 2)
-    else (algTab : FunTab ℝ).f2 f x y
+/-- the primitives over the reals.  `erf`, `atanh`, `atan2` have no Mathlib counterpart that is
+needed here: they are left uninterpreted (constant 0) - no theorem below mentions them, and
+`DiffOK` admits none of them. -/
+noncomputable def realPrims : Prims ℝ where
+  pi := Real.pi
+  e := Real.exp 1
+  sin := Real.sin
+  cos := Real.cos
+  tan := Real.tan
+  exp := Real.exp
+  log := Real.log
+  sqrt := Real.sqrt
+  tanh := Real.tanh
+  sinh := Real.sinh
+  cosh := Real.cosh
+  atan := Real.arctan
+  asin := Real.arcsin
+  acos := Real.arccos
+  asinh := fun x => Real.log (x + Real.sqrt (1 + x ^ 2))
+  atanh := fun _ => 0
+  floor := fun x => (Int.floor x : ℝ)
+  ceil := fun x => (Int.ceil x : ℝ)
+  erf := fun _ => 0
+  pow := fun x y => x ^ y
+  atan2 := fun _ _ => 0
 
-@[simp] theorem realTab_sin : realTab.f1 "sin" = Real.sin := by funext x; simp [realTab]
-@[simp] theorem realTab_cos : realTab.f1 "cos" = Real.cos := by funext x; simp [realTab]
-@[simp] theorem realTab_exp : realTab.f1 "exp" = Real.exp := by funext x; simp [realTab]
-@[simp] theorem realTab_log : realTab.f1 "log" = Real.log := by funext x; simp [realTab]
-@[simp] theorem realTab_sqrt : realTab.f1 "sqrt" = Real.sqrt := by funext x; simp [realTab]
-@[simp] theorem realTab_tanh : realTab.f1 "tanh" = Real.tanh := by funext x; simp [realTab]
-@[simp] theorem realTab_tan : realTab.f1 "tan" = Real.tan := by funext x; simp [realTab]
-@[simp] theorem realTab_sinh : realTab.f1 "sinh" = Real.sinh := by funext x; simp [realTab]
-@[simp] theorem realTab_cosh : realTab.f1 "cosh" = Real.cosh := by funext x; simp [realTab]
-@[simp] theorem realTab_atan : realTab.f1 "atan" = Real.arctan := by funext x; simp [realTab]
-@[simp] theorem realTab_pow (x y : ℝ) : realTab.f2 "pow" x y = x ^ y := by simp [realTab]
+/-- function table over the reals: the SAME name dispatch (`primTab`) that the driver runs at
+`Float` with libm's primitives (`Drv.C11.floatTab = primTab floatPrims`) -/
+noncomputable def realTab : FunTab ℝ := primTab realPrims
+
+/-- the name dispatch of `primTab`, for EVERY number type and every set of primitives - in
+particular for the driver's `Float` table with libm's functions and for `realTab`: each name of
+the grammar denotes the primitive of the same name, `hypot` is `sqrt(x*x + y*y)`, the step
+function and the comparisons are the order-based ones -/
+theorem primTab_names {K : Type} [Add K] [Sub K] [Mul K] [Div K] [Neg K] [NatCast K] [IntCast K]
+    [LT K] [DecidableLT K] [LE K] [DecidableLE K] (P : Prims K) :
+    (primTab P).f1 "sin" = P.sin ∧ (primTab P).f1 "cos" = P.cos ∧ (primTab P).f1 "tan" = P.tan ∧
+    (primTab P).f1 "exp" = P.exp ∧ (primTab P).f1 "log" = P.log ∧ (primTab P).f1 "sqrt" = P.sqrt ∧
+    (primTab P).f1 "tanh" = P.tanh ∧ (primTab P).f1 "sinh" = P.sinh ∧
+    (primTab P).f1 "cosh" = P.cosh ∧ (primTab P).f1 "atan" = P.atan ∧
+    (primTab P).f1 "asin" = P.asin ∧ (primTab P).f1 "acos" = P.acos ∧
+    (primTab P).f1 "asinh" = P.asinh ∧ (primTab P).f1 "atanh" = P.atanh ∧
+    (primTab P).f1 "floor" = P.floor ∧ (primTab P).f1 "ceiling" = P.ceil ∧
+    (primTab P).f1 "erf" = P.erf ∧
+    (primTab P).f2 "pow" = P.pow ∧ (primTab P).f2 "atan2" = P.atan2 ∧
+    (∀ x y, (primTab P).f2 "hypot" x y = P.sqrt (x * x + y * y)) ∧
+    (primTab P).f0 "pi" = P.pi ∧ (primTab P).f0 "E" = P.e ∧
+    (primTab P).heav = heaviside ∧ (primTab P).cmp = cmpVal := by
+  refine ⟨?_, ?_, ?_, ?_, ?_, ?_, ?_, ?_, ?_, ?_, ?_, ?_, ?_, ?_, ?_, ?_, ?_, ?_, ?_, ?_, ?_, ?_,
+    rfl, rfl⟩ <;> first | (funext x; simp [primTab]) | (funext x y; simp [primTab]) | simp [primTab]
+
+/-- names the table does not know keep the meaning of `algTab` (abs, sign, Max, Min) -/
+theorem primTab_alg {K : Type} [Add K] [Sub K] [Mul K] [Div K] [Neg K] [NatCast K] [IntCast K]
+    [LT K] [DecidableLT K] [LE K] [DecidableLE K] (P : Prims K) (x y : K) :
+    (primTab P).f1 "abs" x = (algTab : FunTab K).f1 "abs" x ∧
+    (primTab P).f1 "sign" x = (algTab : FunTab K).f1 "sign" x ∧
+    (primTab P).f2 "Max" x y = (algTab : FunTab K).f2 "Max" x y ∧
+    (primTab P).f2 "Min" x y = (algTab : FunTab K).f2 "Min" x y := by
+  refine ⟨?_, ?_, ?_, ?_⟩ <;> simp [primTab]
+
+@[simp] theorem realTab_sin : realTab.f1 "sin" = Real.sin := by funext x; simp [realTab, primTab, realPrims]
+@[simp] theorem realTab_cos : realTab.f1 "cos" = Real.cos := by funext x; simp [realTab, primTab, realPrims]
+@[simp] theorem realTab_exp : realTab.f1 "exp" = Real.exp := by funext x; simp [realTab, primTab, realPrims]
+@[simp] theorem realTab_log : realTab.f1 "log" = Real.log := by funext x; simp [realTab, primTab, realPrims]
+@[simp] theorem realTab_sqrt : realTab.f1 "sqrt" = Real.sqrt := by funext x; simp [realTab, primTab, realPrims]
+@[simp] theorem realTab_tanh : realTab.f1 "tanh" = Real.tanh := by funext x; simp [realTab, primTab, realPrims]
+@[simp] theorem realTab_tan : realTab.f1 "tan" = Real.tan := by funext x; simp [realTab, primTab, realPrims]
+@[simp] theorem realTab_sinh : realTab.f1 "sinh" = Real.sinh := by funext x; simp [realTab, primTab, realPrims]
+@[simp] theorem realTab_cosh : realTab.f1 "cosh" = Real.cosh := by funext x; simp [realTab, primTab, realPrims]
+@[simp] theorem realTab_atan : realTab.f1 "atan" = Real.arctan := by funext x; simp [realTab, primTab, realPrims]
+@[simp] theorem realTab_pow (x y : ℝ) : realTab.f2 "pow" x y = x ^ y := by simp [realTab, primTab, realPrims]
 
 theorem hasDerivAt_tanh (x : ℝ) : HasDerivAt Real.tanh (1 - Real.tanh x ^ 2) x := by
   have hc : Real.cosh x ≠ 0 := (Real.cosh_pos x).ne'
@@ -562,5 +606,205 @@ example : HasDerivAt
     simp [diff, eval, bindEnv, Env.bind1, Val.toSc]; norm_num
   rw [e] at h
   simpa [bindEnv, Env.bind1, Val.toSc] using h
+
+/-! ### what `_check_signature` guarantees -/
+
+theorem mem_eraseDups_of_mem : ∀ (n : Nat) (l : List String) (s : String), l.length ≤ n → s ∈ l → s ∈ l.eraseDups := by
+  intro n
+  induction n with
+  | zero =>
+    intro l s hl hs
+    have : l = [] := List.length_eq_zero_iff.mp (Nat.le_zero.mp hl)
+    subst this; simp at hs
+  | succ n ih =>
+    intro l s hl hs
+    cases l with
+    | nil => simp at hs
+    | cons a as =>
+      rw [List.eraseDups_cons]
+      by_cases h : s = a
+      · subst h; simp
+      · have hs' : s ∈ as := by
+          rcases List.mem_cons.mp hs with h1 | h1
+          · exact absurd h1 h
+          · exact h1
+        apply List.mem_cons_of_mem
+        apply ih
+        · have := List.length_filter_le (fun b => !b == a) as
+          simp only [List.length_cons] at hl
+          omega
+        · simp [List.mem_filter, hs', h]
+
+theorem symbols_rename (ρ : String → String) (e : Expr) :
+    symbols (rename ρ e) = (symbols e).map ρ := by
+  induction e with
+  | _ => simp_all [symbols, rename]
+
+/-- the definite name of a symbol that some signature entry lists is a variable of the signature -/
+theorem sigFn_mem_sigVars (sig : List (List String)) (s : String)
+    (h : sig.any (fun l => l.contains s) = true) : sigFn sig s ∈ sigVars sig := by
+  unfold sigFn sigVars
+  induction sig with
+  | nil => simp at h
+  | cons l ls ih =>
+    by_cases hl : l.contains s = true
+    · simp only [List.find?_cons, hl]
+      cases l with
+      | nil => simp at hl
+      | cons a t => simp
+    · have hl' : l.contains s = false := by simpa using hl
+      simp only [List.find?_cons, hl']
+      have h' : ls.any (fun l => l.contains s) = true := by
+        rw [List.any_cons, hl', Bool.false_or] at h
+        exact h
+      have := ih h'
+      simp only [List.map_cons, List.mem_cons]
+      exact Or.inr this
+
+/-- a symbol that no signature entry lists is left alone by the synonym renaming -/
+theorem sigFn_of_not_listed (sig : List (List String)) (s : String)
+    (h : sig.any (fun l => l.contains s) = false) : sigFn sig s = s := by
+  unfold sigFn
+  have : sig.find? (fun l => l.contains s) = none := by
+    rw [List.find?_eq_none]
+    intro l hl
+    have := List.any_eq_false.mp h l hl
+    simpa using this
+  rw [this]
+
+/-- **checkSignature_sound**: if `_check_signature` accepts the expression then every symbol of
+the prepared expression (after alias replacement and synonym renaming) is a variable of the
+signature or a constant - nothing is left for the default environment -/
+theorem checkSignature_sound (sig : List (List String)) (cnames : List String)
+    (repl : List (String × String)) (e : Expr)
+    (h : checkSignature sig cnames repl e = true) :
+    ∀ s ∈ symbols (prepare sig repl e), s ∈ sigVars sig ∨ s ∈ cnames := by
+  intro s hs
+  unfold prepare at hs
+  rw [symbols_rename] at hs
+  obtain ⟨s', hs', rfl⟩ := List.mem_map.mp hs
+  unfold checkSignature at h
+  simp only [Bool.and_eq_true] at h
+  have hall := List.all_eq_true.mp h.1 s'
+    (mem_eraseDups_of_mem _ _ s' (Nat.le_refl _) hs')
+  by_cases hl : sig.any (fun l => l.contains s') = true
+  · exact Or.inl (sigFn_mem_sigVars sig s' hl)
+  · have hl' : sig.any (fun l => l.contains s') = false := by simpa using hl
+    rw [sigFn_of_not_listed sig s' hl']
+    right
+    simp only [Bool.or_eq_true, hl', Bool.false_eq_true, or_false] at hall
+    simpa using hall
+
+
+section field
+variable {K : Type} [Field K] [LinearOrder K] [IsStrictOrderedRing K]
+
+/-- a bound name is read from the binding, not from the environment underneath -/
+theorem bindEnv_of_mem (ns : List String) (vs : List (Val K)) (d d' : Env K) (s : String)
+    (hlen : ns.length ≤ vs.length) (hs : s ∈ ns) :
+    (bindEnv ns vs d).sc s = (bindEnv ns vs d').sc s ∧
+      (bindEnv ns vs d).ix s = (bindEnv ns vs d').ix s := by
+  induction ns generalizing vs with
+  | nil => simp at hs
+  | cons n ns ih =>
+    cases vs with
+    | nil => simp at hlen
+    | cons v vs =>
+      simp only [bindEnv, Env.bind1]
+      by_cases h : s = n
+      · simp [h]
+      · have hs' : s ∈ ns := by
+          rcases List.mem_cons.mp hs with h1 | h1
+          · exact absurd h1 h
+          · exact h1
+        have := ih vs (by simpa using hlen) hs'
+        simp [h, this.1, this.2]
+
+/-- **exprFunction_closed**: the value of an accepted call is determined by the arguments and
+the constants alone - whatever environment lies underneath the bindings (no symbol of the
+formula is left unbound: `checkSignature_sound`) -/
+theorem exprFunction_closed (T : FunTab K) (sig : List (List String))
+    (consts : List (String × Val K)) (repl : List (String × String)) (e : Expr)
+    (args : List (Val K)) (v : K) (h : exprFunction T sig consts repl e args = some v)
+    (d : Env K) :
+    v = eval T (bindEnv (sigVars sig ++ consts.map Prod.fst) (args ++ consts.map Prod.snd) d)
+      (prepare sig repl e) := by
+  unfold exprFunction at h
+  split_ifs at h with hc
+  simp only [Bool.and_eq_true, beq_iff_eq] at hc
+  have hv := (Option.some.inj h).symm
+  rw [hv]
+  unfold callEnv
+  apply eval_congr_env
+  intro s hs
+  have hmem := checkSignature_sound sig (consts.map Prod.fst) repl e hc.1 s hs
+  apply bindEnv_of_mem
+  · simp [sigVars, hc.2]
+  · simpa [List.mem_append] using hmem
+
+/-! ### user functions, indexed symbols, the definedness guard -/
+
+/-- a call of a user function evaluates its body with the parameter bound to the VALUE of the
+argument in a fresh environment (call by value; the caller's variables are not visible) -/
+theorem withUser_call1 (T : FunTab K) (defs : List UDef) (d : UDef) (f : String) (env : Env K)
+    (a : Expr) (h : defs.find? (fun d => d.name = f && d.params.length == 1) = some d) :
+    eval (withUser T defs) env (.call1 f a) =
+      eval T (bindEnv d.params [Val.sc (eval (withUser T defs) env a)] defaultEnv) d.body := by
+  simp [eval, withUser, h]
+
+theorem withUser_call2 (T : FunTab K) (defs : List UDef) (d : UDef) (f : String) (env : Env K)
+    (a b : Expr) (h : defs.find? (fun d => d.name = f && d.params.length == 2) = some d) :
+    eval (withUser T defs) env (.call2 f a b) =
+      eval T (bindEnv d.params [Val.sc (eval (withUser T defs) env a),
+        Val.sc (eval (withUser T defs) env b)] defaultEnv) d.body := by
+  simp [eval, withUser, h]
+
+/-- names without a user definition keep the meaning of the base table -/
+theorem withUser_base (T : FunTab K) (defs : List UDef) (f : String) (env : Env K) (a : Expr)
+    (h : defs.find? (fun d => d.name = f && d.params.length == 1) = none) :
+    eval (withUser T defs) env (.call1 f a) = T.f1 f (eval (withUser T defs) env a) := by
+  simp [eval, withUser, h]
+
+/-- the value of a user-function call depends on the caller's environment only through the value
+of the argument -/
+theorem withUser_call1_congr (T : FunTab K) (defs : List UDef) (f : String) (env env' : Env K)
+    (a a' : Expr) (h : eval (withUser T defs) env a = eval (withUser T defs) env' a') :
+    eval (withUser T defs) env (.call1 f a) = eval (withUser T defs) env' (.call1 f a') := by
+  simp [eval, h]
+
+/-- an indexed symbol bound to an array reads the array (0 beyond its end, as the model's total
+reading; py-pde raises IndexError there) -/
+theorem eval_idx_bound (T : FunTab K) (n : String) (l : List K) (d : Env K) (i : Nat) :
+    eval T (Env.bind1 n (Val.vec l) d) (.idx n i) = l.getD i 0 := by
+  simp [eval, Env.bind1, Val.at]
+
+theorem eval_idx_other (T : FunTab K) (n m : String) (v : Val K) (d : Env K) (i : Nat)
+    (h : m ≠ n) : eval T (Env.bind1 n v d) (.idx m i) = eval T d (.idx m i) := by
+  simp [eval, Env.bind1, h]
+
+/-- what the driver's guard `defined` certifies at an exact number type: below a `defined` node
+no division has a vanishing denominator and no negative power a vanishing base -/
+theorem defined_div (T : FunTab K) (env : Env K) (a b : Expr)
+    (h : defined T env (.div a b) = true) :
+    defined T env a = true ∧ defined T env b = true ∧ eval T env b ≠ 0 := by
+  simpa [defined, and_assoc] using h
+
+theorem defined_powI (T : FunTab K) (env : Env K) (a : Expr) (n : Int)
+    (h : defined T env (.powI a n) = true) :
+    defined T env a = true ∧ (0 ≤ n ∨ eval T env a ≠ 0) := by
+  simpa [defined] using h
+
+end field
+
+/-- non-vacuity: `f(x) + arr[1]` with the user function `f(v) = v**2 + 1`, `x = 3`, `arr = [5, 7]` -/
+example : eval (withUser (algTab : FunTab ℚ) [⟨"f", ["v"], .add (.powI (.var "v") 2) (.num 1)⟩])
+    (bindEnv ["x", "arr"] [Val.sc 3, Val.vec [5, 7]] defaultEnv)
+    (.add (.call1 "f" (.var "x")) (.idx "arr" 1)) = 17 := by decide +kernel
+
+/-- `checkSignature` accepts `a*q**2` for the signature `[["x","q"]]` with the constant `a`, and all
+symbols of the prepared expression are then `x` or `a` -/
+example : checkSignature [["x", "q"]] ["a"] [] (.mul (.var "a") (.powI (.var "q") 2)) = true ∧
+    symbols (prepare [["x", "q"]] [] (.mul (.var "a") (.powI (.var "q") 2))) = ["a", "x"] := by
+  decide +kernel
 
 end PdeVerif.Ex
